@@ -31,7 +31,9 @@ fn seqs<T: Clone>(alpha: &[T], max: usize) -> Vec<Vec<T>> {
     all
 }
 
-const TEMPLATES: [&str; 12] = [
+const TEMPLATES: [&str; 14] = [
+    "{msg:>4!}|{wide_msg}",
+    "{eta_precise} {duration} {wide_msg:^}",
     "{spinner} {msg}",
     "{spinner:.green} {wide_msg}",
     "{bar:10} {pos}/{len}",
@@ -76,11 +78,16 @@ fn exercise(style: ProgressStyle, nticks: u64, hist: &[String], stats: &mut Stat
         return Err(mk(format!("accepted style panics in get_final_tick_str: {}", panic_class(&p)), "get_final_tick_str()".into(), p));
     }
     let mut h = 0u64;
+    crate::clock::reset();
     for w in [0u16, 1, 5, 80] {
         let catcher = LineCatcher::new(w);
-        for (pos, len) in [(0u64, Some(0u64)), (0, Some(5)), (3, Some(5)), (5, Some(5)), (9, Some(5)), (u64::MAX, Some(u64::MAX)), (7, None)] {
-            for status in 0..4 {
-                let msg = if status == 3 { "" } else { "msg" };
+        for (pos, len) in [(0u64, Some(0u64)), (0, Some(5)), (3, Some(5)), (5, Some(5)), (9, Some(5)), (u64::MAX, Some(u64::MAX)), (0, Some(u64::MAX)), (7, None)] {
+            for status in 0..5 {
+                let msg = match status {
+                    3 => "",
+                    4 => "héllo wörld ünï",
+                    _ => "msg",
+                };
                 let step = format!("draw at width {w} pos {pos} len {:?} status {status} message {:?}", len, msg);
                 let st = style.clone();
                 let r = catch(|| {
@@ -88,6 +95,11 @@ fn exercise(style: ProgressStyle, nticks: u64, hist: &[String], stats: &mut Stat
                     let mut out = Vec::new();
                     for _ in 0..=(2 * nticks + 1).min(12) {
                         pb.tick();
+                    }
+                    if len == Some(u64::MAX) || len == Some(5) {
+                        // one slow step: the estimator now knows a rate below one step per second
+                        crate::clock::advance_ms(2500);
+                        pb.inc(1);
                     }
                     match status {
                         1 => pb.finish(),
